@@ -555,6 +555,19 @@ func (s SchemesData) Append(d *SchemeData) SchemesData {
 	return append(s, d)
 }
 
+// appendType appends d to s unless s already lists a scheme of the same type.
+// The schemes of a method and of a service feed the Auth<Type> functions of the
+// Auther interface and the arguments of the endpoint constructors, of which
+// there is one per scheme type however many schemes of that type are defined.
+func (s SchemesData) appendType(d *SchemeData) SchemesData {
+	for _, se := range s {
+		if se.Type == d.Type {
+			return s
+		}
+	}
+	return append(s, d)
+}
+
 // analyze creates the data necessary to render the code of the given service.
 // It records the user types needed by the service definition in userTypes.
 func (d ServicesData) analyze(service *expr.ServiceExpr) *Data {
@@ -680,7 +693,7 @@ func (d ServicesData) analyze(service *expr.ServiceExpr) *Data {
 			m := buildMethodData(e, scope)
 			methods[i] = m
 			for _, s := range m.Schemes {
-				schemes = schemes.Append(s)
+				schemes = schemes.appendType(s)
 			}
 			rt, ok := e.Result.Type.(*expr.ResultTypeExpr)
 			if !ok {
@@ -966,7 +979,7 @@ func buildMethodData(m *expr.MethodExpr, scope *codegen.NameScope) *MethodData {
 		for _, s := range req.Schemes {
 			sch := BuildSchemeData(s, m)
 			rs = rs.Append(sch)
-			schemes = schemes.Append(sch)
+			schemes = schemes.appendType(sch)
 		}
 		reqs = append(reqs, &RequirementData{Schemes: rs, Scopes: req.Scopes})
 	}
